@@ -382,6 +382,8 @@ class Inliner:
                 kids = [e.value, e.slice]
             elif isinstance(e, (ast.Tuple, ast.List)):
                 kids = list(e.elts)
+            elif isinstance(e, ast.JoinedStr):
+                kids = [v.value for v in e.values if isinstance(v, ast.FormattedValue)]
             else:
                 return None, _is_simple(e)
             for k in kids:
@@ -391,6 +393,7 @@ class Inliner:
                 if not pure:
                     return None, False
             return None, not isinstance(e, ast.Call)
+        # the outermost call itself may have effects: what matters is that nothing with an effect is evaluated BEFORE the helper call
         return search(root)[0]
 
     # ---------------------------------------------------------------- driver
